@@ -17,7 +17,8 @@ class BudgetExceeded(BaseException):
     """the scenario needs more integrator calls than the harness is willing to run (not a finding)"""
 
 
-BUDGET = 30000
+BUDGET = 12000          # integrator calls per scenario (explicit methods)
+BUDGET_IMPLICIT = 2500  # ... for implicit methods (a call costs a nonlinear solve)
 
 
 def make_recorder(base, log):
@@ -31,7 +32,7 @@ def make_recorder(base, log):
             cls = type(self)
             k = cls.ncalls
             cls.ncalls += 1
-            if k > BUDGET:
+            if k > (BUDGET_IMPLICIT if getattr(self, 'is_implicit', False) else BUDGET):
                 raise BudgetExceeded()
             ent = dict(t=float(initial_time), h=float(timestep), cap=len(cls.owner._OdeSystem__t) if cls.owner is not None else None,
                        dt_attr=float(cls.owner.dt) if cls.owner is not None else None, h_dtype=str(getattr(timestep, "dtype", type(timestep).__name__)))
